@@ -18,8 +18,9 @@
 (* joined continuation lines, the here-document bodies), the same `$?`     *)
 (* (zero / non-zero), the descriptor offset at every probe, the exit       *)
 (* status (zero / non-zero), a diagnostic iff the specification says       *)
-(* syntax error, and the lines echoed by `set -v`.  Scripts outside the    *)
-(* family (skip) are accepted whatever happened.  Because the chunking     *)
+(* syntax error, and the lines echoed by `set -v`.  For a script that      *)
+(* leaves the family (skip) only the events of the command lines before    *)
+(* the offending line are required, as a prefix.  Because the chunking     *)
 (* and the schedule are not part of the record, two different observations *)
 (* of one scenario can never both be accepted.                             *)
 (***************************************************************************)
@@ -35,13 +36,16 @@ Norm(x) == IF x = 0 THEN 0 ELSE 1
 TextOK(r) == /\ Len(r.text) = Len(r.lines)
              /\ \A i \in 1..Len(r.lines) : r.lines[i] \in AllKinds /\ r.text[i] = Text(r.lines[i], i)
 
-TraceOK(r, e) ==
-  /\ Len(r.trace) = Len(e.trace)
+\* the first Len(e.trace) observed events are the specified ones
+EventsOK(r, e) ==
+  /\ Len(r.trace) >= Len(e.trace)
   /\ \A i \in 1..Len(e.trace) :
        /\ Len(r.trace[i].args) = Len(e.trace[i].args)
        /\ \A j \in 1..Len(e.trace[i].args) : r.trace[i].args[j] = e.trace[i].args[j]
        /\ Norm(r.trace[i].st) = e.trace[i].st
        /\ (r.trace[i].off = -1 \/ r.trace[i].off = Bytes(e, e.trace[i].off))
+
+TraceOK(r, e) == Len(r.trace) = Len(e.trace) /\ EventsOK(r, e)
 
 \* `set -v`: the lines the lexer read while the option was on come first on
 \* stderr, each as it was read (a final line without newline may be followed
@@ -59,7 +63,7 @@ Accept(r) ==
   /\ r.feed \in {"fd", "str"}
   /\ (r.lines = <<>> => r.nl)
   /\ LET e == Oracle(r.lines, r.nl, r.feed) IN
-     IF e.skip THEN TRUE
+     IF e.skip THEN EventsOK(r, e)      \* the commands before the line that leaves the family have run
      ELSE /\ r.outcome = "completed"
           /\ TraceOK(r, e)
           /\ Norm(r.status) = e.st
